@@ -11,6 +11,8 @@
   Model: OLP/Olvm/Model.lean (port of the keeper, the CommitStateDB object cache, TransitionDb, the
   outer layers of EVM.Call / EVM.create, runOLVM, ContractFeeHandling and the session rule; the
   interpreter's run is the parameter `VmOut`). Helper lemmas: OLP/Olvm/Lemmas.lean.
+  The model follows /repo as repaired by da864f3 (RemoveAccount writes the balance) and d9b5b70
+  (validateSigner refuses a missing chain id and a signature that is not 65 bytes long).
   The standing hypothesis `s.cache = []` ("the EVM object cache is empty between transactions") is
   an invariant of every history (`step_keeps_cache_empty`), so it holds in every reachable state.
 -/
@@ -145,19 +147,16 @@ theorem nonce_plus_one (env : Env) (s s' : St) (tx : Tx) (vm : VmOut) (r : Resp)
 /-- RECIPIENT: an executed call credits the recipient exactly the transferred value (the whole value
     on success, nothing when the interpreter ended in an error — including the EIP-158 case of a
     zero-value call to a missing account). Stated for recipients whose balance the code itself does
-    not move (`heff`: plain accounts, contracts that keep what they get). `hnn`: no negative
-    stored balance (C02). -/
+    not move (`heff`: plain accounts, contracts that keep what they get). -/
 theorem recipient_credit_exact (env : Env) (s s' : St) (tx : Tx) (vm : VmOut) (r : Resp) (t : Addr)
     (h0 : s.cache = []) (hto : tx.to = some t) (hat : t ≠ tx.sender)
-    (heff : ∀ e ∈ vm.effs, e.addr ≠ t) (hnn : 0 ≤ nativeBalance s.w t)
+    (heff : ∀ e ∈ vm.effs, e.addr ≠ t)
     (h : deliverOlvm env s tx vm = (s', r)) (hc : r.code = 0) :
     nativeBalance s'.w t = nativeBalance s.w t + (if r.stage = .success then tx.value else 0) := by
   obtain ⟨s1, er, hv, ht, -, -, rfl, rfl⟩ := deliver_ok env s s' tx vm r h hc
-  have hval := validate_none_value env s.w tx hv
   obtain ⟨hw, hwf⟩ := transitionDb_ok_w env s s1 tx vm er (wf_of_empty s h0) ht
   have htr := transitionDb_recipient env s s1 tx vm er t h0 (by simp [hto]) hat heff ht
-  have hfin := tracks_finalise s1 t _ hwf htr (by rw [hw]; exact hnn)
-    (by rw [hw]; simp only [nativeBalance]; split <;> omega)
+  have hfin := tracks_finalise s1 t _ hwf htr
   simp only [nativeBalance] at hfin ⊢
   rw [hfin]
   cases hf : er.failed <;> simp
@@ -166,16 +165,14 @@ theorem recipient_credit_exact (env : Env) (s s' : St) (tx : Tx) (vm : VmOut) (r
     value on top of whatever the address already held (pre-funded addresses keep their balance) -/
 theorem created_contract_credit_exact (env : Env) (s s' : St) (tx : Tx) (vm : VmOut) (r : Resp)
     (h0 : s.cache = []) (hto : tx.to = none) (hat : env.newAddr ≠ tx.sender)
-    (heff : ∀ e ∈ vm.effs, e.addr ≠ env.newAddr) (hnn : 0 ≤ nativeBalance s.w env.newAddr)
+    (heff : ∀ e ∈ vm.effs, e.addr ≠ env.newAddr)
     (h : deliverOlvm env s tx vm = (s', r)) (hc : r.code = 0) :
     nativeBalance s'.w env.newAddr =
       nativeBalance s.w env.newAddr + (if r.stage = .success then tx.value else 0) := by
   obtain ⟨s1, er, hv, ht, -, -, rfl, rfl⟩ := deliver_ok env s s' tx vm r h hc
-  have hval := validate_none_value env s.w tx hv
   obtain ⟨hw, hwf⟩ := transitionDb_ok_w env s s1 tx vm er (wf_of_empty s h0) ht
   have htr := transitionDb_recipient env s s1 tx vm er env.newAddr h0 (by simp [hto]) hat heff ht
-  have hfin := tracks_finalise s1 env.newAddr _ hwf htr (by rw [hw]; exact hnn)
-    (by rw [hw]; simp only [nativeBalance]; split <;> omega)
+  have hfin := tracks_finalise s1 env.newAddr _ hwf htr
   simp only [nativeBalance] at hfin ⊢
   rw [hfin]
   cases hf : er.failed <;> simp
@@ -185,14 +182,13 @@ theorem created_contract_credit_exact (env : Env) (s s' : St) (tx : Tx) (vm : Vm
     reverts left a dirty mark on it (`vm.touched` is unconstrained) -/
 theorem bystander_untouched (env : Env) (s s' : St) (tx : Tx) (vm : VmOut) (r : Resp) (c : Addr)
     (h0 : s.cache = []) (hcs : c ≠ tx.sender) (hct : tx.to ≠ some c) (hcn : c ≠ env.newAddr)
-    (heff : ∀ e ∈ vm.effs, e.addr ≠ c) (hnn : 0 ≤ nativeBalance s.w c)
+    (heff : ∀ e ∈ vm.effs, e.addr ≠ c)
     (h : deliverOlvm env s tx vm = (s', r)) : nativeBalance s'.w c = nativeBalance s.w c := by
   by_cases hc : r.code = 0
   · obtain ⟨s1, er, hv, ht, -, -, rfl, rfl⟩ := deliver_ok env s s' tx vm r h hc
     obtain ⟨hw, hwf⟩ := transitionDb_ok_w env s s1 tx vm er (wf_of_empty s h0) ht
     have htr := transitionDb_bystander env s s1 tx vm er c h0 hcs hct hcn heff ht
-    have hfin := tracks_finalise s1 c _ hwf htr (by rw [hw]; exact hnn)
-      (by rw [hw]; simp only [nativeBalance]; omega)
+    have hfin := tracks_finalise s1 c _ hwf htr
     simpa [nativeBalance] using hfin
   · rcases deliver_refused env s s' tx vm r h hc with rfl | rfl <;> rfl
 
@@ -219,73 +215,75 @@ theorem precheck_failure_reports_no_gas (env : Env) (s s' : St) (tx : Tx) (vm : 
 theorem checktx_changes_nothing (env : Env) (s : St) (tx : Tx) : (checkOlvm env s tx).1 = s := by
   unfold checkOlvm; split <;> rfl
 
-/-! ## where the code departs from the property
+/-! ## nothing created, nothing lost
 
-  FULL STATEMENT (false of the code as written, S8):
-      theorem olvm_conserves_value : ∀ env s tx vm s' r, s.cache = [] →
-        deliverOlvm env s tx vm = (s', r) → (interpreter effects balanced) →
-        total s'.w.bal + s'.w.pool = total s.w.bal + s.w.pool
-  `Finalise` drops a selfdestructed object through `deleteStateObject` → `RemoveAccount`, which
-  deletes the keeper record only: the balance record of the contract keeps what it held before the
-  transaction although the interpreter has already paid that amount (plus the value sent along)
-  to the beneficiary. The partial theorem (`olvm_conserves_value_partial`, below) takes exactly the
-  hypothesis the code forces — no surviving `Suicide` call; this is the proved counterexample, and
-  its witness (create / fund / trigger) is replayed on the implementation by the harness on every
-  run (scripted case 0, monitor signature `selfdestructed-contract-keeps-its-balance-record`). -/
+  Until commit da864f3 this clause was false of the code (S8 / former KF-C17-1): `Finalise` drops a
+  selfdestructed object through `deleteStateObject` → `RemoveAccount`, which deleted the keeper
+  record only, so the balance record of the contract kept what it held before the transaction
+  although the interpreter had already paid that amount to the beneficiary. `RemoveAccount` now
+  writes the removed account's coins to the balance store; the model follows the repaired code and
+  the theorem holds with SELFDESTRUCT included. The create / fund / trigger scenario is replayed on
+  the implementation on every run (scripted case 0; monitor signature
+  `selfdestructed-contract-keeps-its-balance-record`). -/
 
-/-- VALUE CONSERVATION (partial: exactly the hypothesis the code forces is `noSuicide`, the first
-    component of `EffsOk`). For every state, transaction and interpreter behaviour whose surviving
-    balance calls are balanced (`effSum = 0`: every inner transfer debits what it credits), contain
-    no SELFDESTRUCT, credit non-negative amounts and debit only the sender or contracts that exist
-    with code (`EffsOk`; the source of an inner transfer is the executing contract), the sum of all
-    OLT balance records plus the fee pool is unchanged — whether the transaction executes, reverts
-    or is refused. `hnn`: no negative stored balance (C02); `hmin`: the minimal fee is not negative.
+/-- VALUE CONSERVATION, full statement. For every state, transaction and interpreter behaviour —
+    executed, reverted or refused; with inner transfers and SELFDESTRUCT — the sum of all OLT
+    balance records plus the fee pool is unchanged. The only hypothesis besides the empty object
+    cache (an invariant of every history) is the contract of the interpreter itself: the balance
+    calls it makes on the state it is handed (`vmInput`) net to zero (`vmNet`): an inner transfer
+    credits what it debits, SELFDESTRUCT pays the beneficiary exactly what `Suicide` then clears.
+    No assumption on signs of balances, fees or on which accounts are debited.
     This is the `…_conserves_value` instance C02 imports for the OLVM handler. -/
-theorem olvm_conserves_value_partial (env : Env) (s s' : St) (tx : Tx) (vm : VmOut) (r : Resp)
-    (h0 : s.cache = []) (hnn : NonNeg s.w.bal) (hmin : 0 ≤ env.minFee)
-    (hl : EffsOk ⟨s.w, tx.sender⟩ vm.effs) (hz : effSum vm.effs = 0)
+theorem olvm_conserves_value (env : Env) (s s' : St) (tx : Tx) (vm : VmOut) (r : Resp)
+    (h0 : s.cache = []) (hz : vmNet (vmInput env s tx) vm.effs = 0)
     (h : deliverOlvm env s tx vm = (s', r)) :
     total s'.w.bal + s'.w.pool = total s.w.bal + s.w.pool := by
   by_cases hc : r.code = 0
   · obtain ⟨s1, er, hv, ht, hne, -, rfl, rfl⟩ := deliver_ok env s s' tx vm r h hc
-    have hval := validate_none_value env s.w tx hv
-    have hprice : 0 ≤ tx.price := by have := validate_none_price env s.w tx hv; omega
     obtain ⟨hw, hwf⟩ := transitionDb_ok_w env s s1 tx vm er (wf_of_empty s h0) ht
-    have hgood := good_transitionDb env s s1 tx vm er h0 hval hprice hl ht
-    have hset := settled_of_good _ s1 hgood hnn
-    obtain ⟨gf, hu, hpend⟩ := pend_transitionDb env s s1 tx vm er h0 hl.1 hz ht
+    have hmir := mirror_transitionDb env s s1 tx vm er h0 ht
+    obtain ⟨gf, hu, hpend⟩ := pend_transitionDb env s s1 tx vm er h0 hz ht
     simp only
-    rw [total_finalise s1 hwf hset, finalise_w, finW_pool, hw, hpend]
+    rw [total_finalise s1 hwf hmir, finalise_w, finW_pool, hw, hpend]
     have hlt : gf < gasU tx := by omega
     have hcast : ((er.usedGas : Nat) : Int) = (gasU tx : Int) - (gf : Int) := by omega
     rw [hcast, Int.mul_sub, Int.mul_comm tx.price, Int.mul_comm tx.price]
     omega
   · rcases deliver_refused env s s' tx vm r h hc with rfl | rfl <;> rfl
 
+/-- the state-independent form of the hypothesis when no SELFDESTRUCT survives: the credits of
+    the interpreter's calls equal its debits -/
+theorem olvm_conserves_value_balanced_effs (env : Env) (s s' : St) (tx : Tx) (vm : VmOut) (r : Resp)
+    (h0 : s.cache = []) (hn : noSuicide vm.effs = true) (hz : effSum vm.effs = 0)
+    (h : deliverOlvm env s tx vm = (s', r)) :
+    total s'.w.bal + s'.w.pool = total s.w.bal + s.w.pool :=
+  olvm_conserves_value env s s' tx vm r h0 (by rw [vmNet_noSuicide _ _ hn, hz]) h
+
 /-- … in particular, unconditionally on the interpreter, for every transaction during which no
     balance call of the interpreter survives: all plain transfers, every reverted or out-of-gas
     run, creations and calls of code that moves no value itself -/
 theorem olvm_conserves_value_no_inner_moves (env : Env) (s s' : St) (tx : Tx) (vm : VmOut) (r : Resp)
-    (h0 : s.cache = []) (hnn : NonNeg s.w.bal) (hmin : 0 ≤ env.minFee) (he : vm.effs = [])
+    (h0 : s.cache = []) (he : vm.effs = [])
     (h : deliverOlvm env s tx vm = (s', r)) :
-    total s'.w.bal + s'.w.pool = total s.w.bal + s.w.pool := by
-  apply olvm_conserves_value_partial env s s' tx vm r h0 hnn hmin _ _ h
-  · rw [he]; exact ⟨rfl, by simp, by simp⟩
-  · rw [he]; rfl
+    total s'.w.bal + s'.w.pool = total s.w.bal + s.w.pool :=
+  olvm_conserves_value env s s' tx vm r h0 (by rw [he]; rfl) h
 
 def cxEnv : Env := ⟨true, 1, 1000000, "n"⟩
-def cxTx : Tx := ⟨"a", some "c", 0, 7, 30000, 1, 1, 0, 110, some 0, 1, true, true, true, true, true, true⟩
+def cxTx : Tx := ⟨"a", some "c", 0, 7, 30000, 1, 1, 0, 110, some 0, 1, true, true, true, true, true, true, false⟩
 /-- `c` is a contract holding 5; called with value 7 it pays 12 to `b` and selfdestructs -/
 def cxState : St := ⟨⟨[("a", 100000), ("c", 5)], [("c", ⟨1, true⟩)], 0⟩, []⟩
 def cxVm : VmOut := ⟨1000, 0, false, false, [.add "b" 12, .suicide "c"], []⟩
 
-theorem selfdestruct_creates_value :
+/-- SELFDESTRUCT (the former counterexample, now a regression example): the hypothesis of
+    `olvm_conserves_value` holds, the beneficiary gets everything, the contract's record is 0,
+    its keeper record is gone, and the total is unchanged -/
+theorem selfdestruct_conserves_value :
     let out := deliverOlvm cxEnv cxState cxTx cxVm
+    vmNet (vmInput cxEnv cxState cxTx) cxVm.effs = 0 ∧
     out.2.code = 0 ∧ out.2.stage = .success ∧
-    nativeBalance out.1.w "b" = 12 ∧                         -- the beneficiary got everything
-    nativeBalance out.1.w "c" = 5 ∧                          -- … and the contract still has its 5
-    alookup "c" out.1.w.keeper = none ∧                      -- as a keeper-less "legacy" account
-    total out.1.w.bal + out.1.w.pool = total cxState.w.bal + cxState.w.pool + 5 := by
+    nativeBalance out.1.w "b" = 12 ∧ nativeBalance out.1.w "c" = 0 ∧
+    alookup "c" out.1.w.keeper = none ∧
+    total out.1.w.bal + out.1.w.pool = total cxState.w.bal + cxState.w.pool := by
   decide
 
 /-- S12 (outside the statement of C17, which only asks for "+1"; relevant to C05): only
@@ -294,7 +292,7 @@ theorem selfdestruct_creates_value :
     nonce of an executed OLVM transaction is not unique per sender. Witness replayed on the
     implementation by scripted case 1 (counters `s12_*`). -/
 theorem nonce_above_state_executes_and_can_be_reused :
-    let tx1 : Tx := ⟨"a", some "t", 2, 11, 21000, 1, 0, 0, 110, some 2, 1, true, true, true, true, true, true⟩
+    let tx1 : Tx := ⟨"a", some "t", 2, 11, 21000, 1, 0, 0, 110, some 2, 1, true, true, true, true, true, true, false⟩
     let tx2 : Tx := { tx1 with value := 22 }
     let vm : VmOut := ⟨0, 0, false, false, [], []⟩
     let s0 : St := ⟨⟨[("a", 100000)], [], 0⟩, []⟩
@@ -311,7 +309,7 @@ theorem nonce_above_state_executes_and_can_be_reused :
     expected ones (gas used 21000 at price 3) -/
 example :
     let env : Env := ⟨true, 1, 1000000, "n"⟩
-    let tx : Tx := ⟨"a", some "t", 4, 500, 25000, 3, 0, 0, 110, some 4, 1, true, true, true, true, true, true⟩
+    let tx : Tx := ⟨"a", some "t", 4, 500, 25000, 3, 0, 0, 110, some 4, 1, true, true, true, true, true, true, false⟩
     let vm : VmOut := ⟨0, 0, false, false, [], []⟩
     let s : St := ⟨⟨[("a", 100000), ("t", 9), ("z", 1)], [("a", ⟨4, false⟩)], 40⟩, []⟩
     let out := deliverOlvm env s tx vm
@@ -325,7 +323,7 @@ example :
     the nonce still goes up -/
 example :
     let env : Env := ⟨true, 1, 1000000, "n"⟩
-    let tx : Tx := ⟨"a", some "c", 0, 500, 30000, 2, 1, 0, 110, some 0, 1, true, true, true, true, true, true⟩
+    let tx : Tx := ⟨"a", some "c", 0, 500, 30000, 2, 1, 0, 110, some 0, 1, true, true, true, true, true, true, false⟩
     let vm : VmOut := ⟨0, 0, true, false, [], []⟩
     let s : St := ⟨⟨[("a", 100000)], [("c", ⟨1, true⟩)], 0⟩, []⟩
     let out := deliverOlvm env s tx vm
@@ -337,7 +335,7 @@ example :
 /-- a creation at a pre-funded address with a refund: gas used = 60000 − (5000 + min(55000/3, 4800)) -/
 example :
     let env : Env := ⟨true, 1, 1000000, "n"⟩
-    let tx : Tx := ⟨"a", none, 0, 7, 60000, 1, 10, 2, 130, some 0, 1, true, true, true, true, true, true⟩
+    let tx : Tx := ⟨"a", none, 0, 7, 60000, 1, 10, 2, 130, some 0, 1, true, true, true, true, true, true, false⟩
     let vm : VmOut := ⟨5000, 4800, false, true, [], []⟩
     let s : St := ⟨⟨[("a", 100000), ("n", 3)], [], 0⟩, []⟩
     let out := deliverOlvm env s tx vm
@@ -346,33 +344,39 @@ example :
     nativeBalance out.1.w "a" = 100000 - 50200 - 7 := by
   decide
 
-/-- a forwarding contract: the hypotheses of `olvm_conserves_value_partial` hold for a run with inner
+/-- a forwarding contract: the hypothesis of `olvm_conserves_value` holds for a run with inner
     value movement (contract `c` passes the 7 it receives on to `t`), and the total is unchanged -/
 example :
     let env : Env := ⟨true, 1, 1000000, "n"⟩
-    let tx : Tx := ⟨"a", some "c", 0, 7, 90000, 1, 0, 0, 110, some 0, 1, true, true, true, true, true, true⟩
+    let tx : Tx := ⟨"a", some "c", 0, 7, 90000, 1, 0, 0, 110, some 0, 1, true, true, true, true, true, true, false⟩
     let vm : VmOut := ⟨20000, 0, false, false, [.sub "c" 7, .add "t" 7], []⟩
     let s : St := ⟨⟨[("a", 100000), ("c", 5)], [("c", ⟨1, true⟩)], 0⟩, []⟩
     let out := deliverOlvm env s tx vm
-    NonNeg s.w.bal ∧ EffsOk ⟨s.w, tx.sender⟩ vm.effs ∧ effSum vm.effs = 0 ∧ out.2.code = 0 ∧
+    s.cache = [] ∧ vmNet (vmInput env s tx) vm.effs = 0 ∧ out.2.code = 0 ∧
     nativeBalance out.1.w "t" = 7 ∧ nativeBalance out.1.w "c" = 5 ∧
     total out.1.w.bal + out.1.w.pool = total s.w.bal + s.w.pool := by
-  refine ⟨?_, ⟨by decide, ?_, ?_⟩, by decide, by decide, by decide, by decide, by decide⟩
-  · intro p hp; simp at hp; rcases hp with rfl | rfl <;> simp
-  · intro a n hm; simp at hm; omega
-  · intro a n hm; simp at hm
-    obtain ⟨rfl, rfl⟩ := hm
-    exact Or.inr (Or.inr ⟨⟨1, true⟩, by decide, rfl⟩)
+  decide
 
 /-- refused transactions of both kinds (Validate: nonce too low; TransitionDb: block gas pool) meet
     the hypothesis of `precheck_failure_noop` -/
 example :
-    let tx : Tx := ⟨"a", some "t", 1, 5, 21000, 1, 0, 0, 110, some 1, 1, true, true, true, true, true, true⟩
+    let tx : Tx := ⟨"a", some "t", 1, 5, 21000, 1, 0, 0, 110, some 1, 1, true, true, true, true, true, true, false⟩
     let vm : VmOut := ⟨0, 0, false, false, [], []⟩
     let s : St := ⟨⟨[("a", 100000)], [("a", ⟨2, false⟩)], 0⟩, []⟩
     (deliverOlvm ⟨true, 1, 1000000, "n"⟩ s tx vm).2.stage = .invalid .nonceLow ∧
     (deliverOlvm ⟨true, 1, 20000, "n"⟩ s { tx with nonce := 2, memo := some 2 } vm).2.stage = .consensus .gasPool ∧
     (deliverOlvm ⟨true, 1, 20000, "n"⟩ s { tx with nonce := 2, memo := some 2 } vm).1 = s := by
+  decide
+
+/-- the two inputs that used to panic in `validateSigner` are refused like any other invalid
+    transaction, the missing chain id first -/
+example :
+    let tx : Tx := ⟨"a", some "t", 0, 5, 21000, 1, 0, 0, 110, some 0, 1, true, true, true, true, true, true, false⟩
+    let vm : VmOut := ⟨0, 0, false, false, [], []⟩
+    let s : St := ⟨⟨[("a", 100000)], [], 0⟩, []⟩
+    (deliverOlvm cxEnv s { tx with sigOk := false } vm).2.stage = .invalid .sigBad ∧
+    (deliverOlvm cxEnv s { tx with chainNil := true, chainOk := false, sigOk := false } vm).2.stage = .invalid .chainId ∧
+    (deliverOlvm cxEnv s { tx with sigOk := false } vm).1 = s := by
   decide
 
 end OLP.Props.C17
